@@ -56,7 +56,7 @@ def run(tier, seed):
         items.append(('gen:%d' % s, src, ['-fyield-support', '-feof-support'] + extra))
     pinned(chk)
     out = ctrace.run_pipeline(chk, items, rng, seed, nwalks=5 if quick else 12, maxlen=9, chunk_mode='all', chunk_limit=12 if quick else 64,
-                              post_terminal=2, keep_records=True)
+                              post_terminal=2, keep_records=True, cover=8 if quick else 20)
     try:
         progs = [p for p in out['progs'] if p.bin]
         reports, st, cases = mc.explore(progs, None, post=2, budget=8000 if quick else 200000, timeout=400 if quick else 2400)
@@ -92,6 +92,7 @@ def run(tier, seed):
         chk.coverage = {
             'states': out['stats']['states'] + st['states'], 'transitions': out['stats']['transitions'] + st['transitions'],
             'traces_validated_against_impl': out['counts']['ACCEPT'] + confirmed,
+            **ctrace.cover_cov(out),
             'samples': ctrace.sample_cases(out, 3),
             'programs': len(progs), 'call_history_traces': dict(out['counts']), 'machine_reports': kinds,
             'machine_reports_confirmed_on_binary': confirmed,
